@@ -11,25 +11,43 @@ use std::collections::HashMap;
 use std::hash::{Hash, Hasher};
 
 /// Recording hasher: "hash equally" is judged on the exact stream of bytes a
-/// value feeds to *any* Hasher, folded injectively enough (FNV-1a, 64 bit) —
-/// two different streams that collide in FNV would be a false pass, two equal
-/// streams always fold equally, so there are no false alarms.
-struct Rec(u64, u64);
+/// value feeds to *any* Hasher (recorded verbatim, compared byte by byte), so
+/// there is no collision that could hide a difference and no false alarm.
+const REC_CAP: usize = 40;
+struct Rec {
+    buf: [u8; REC_CAP],
+    len: usize,
+}
 impl Hasher for Rec {
     fn finish(&self) -> u64 {
-        self.0 ^ self.1.rotate_left(32)
+        0
     }
     fn write(&mut self, bytes: &[u8]) {
         for b in bytes {
-            self.0 = (self.0 ^ (*b as u64)).wrapping_mul(0x100000001b3);
-            self.1 = self.1.wrapping_add(1);
+            assert!(self.len < REC_CAP, "harness: hash stream longer than recorder");
+            self.buf[self.len] = *b;
+            self.len += 1;
         }
     }
 }
-fn h(v: &PropertyValue) -> u64 {
-    let mut r = Rec(0xcbf29ce484222325, 0);
+fn rec(v: &PropertyValue) -> Rec {
+    let mut r = Rec { buf: [0; REC_CAP], len: 0 };
     v.hash(&mut r);
-    r.finish()
+    r
+}
+fn same_hash_stream(a: &PropertyValue, b: &PropertyValue) -> bool {
+    let (ra, rb) = (rec(a), rec(b));
+    if ra.len != rb.len {
+        return false;
+    }
+    let mut i = 0;
+    while i < ra.len {
+        if ra.buf[i] != rb.buf[i] {
+            return false;
+        }
+        i += 1;
+    }
+    true
 }
 
 // Tag alphabet (concrete at every call site, so CBMC folds the match):
@@ -46,11 +64,29 @@ fn ascii() -> char {
     b as char
 }
 #[inline(always)]
-pub fn mk(tag: u8) -> PropertyValue {
+fn f64n(nan: &mut bool) -> f64 {
+    let f: f64 = kani::any();
+    if f.is_nan() {
+        *nan = true;
+    }
+    f
+}
+#[inline(always)]
+fn f32n(nan: &mut bool) -> f32 {
+    let f: f32 = kani::any();
+    if f.is_nan() {
+        *nan = true;
+    }
+    f
+}
+/// Build a value of the given concrete shape; `nan` is set when some float payload is a NaN
+/// (the region of the recorded finding C10-nan-eq, see /verif/known_findings.jsonl).
+#[inline(always)]
+pub fn mk(tag: u8, nan: &mut bool) -> PropertyValue {
     match tag {
         0 => PropertyValue::Boolean(kani::any()),
         1 => PropertyValue::Integer(kani::any()),
-        2 => PropertyValue::Float(kani::any()),
+        2 => PropertyValue::Float(f64n(nan)),
         3 => PropertyValue::DateTime(kani::any()),
         4 => PropertyValue::Duration {
             months: kani::any(),
@@ -72,14 +108,14 @@ pub fn mk(tag: u8) -> PropertyValue {
             PropertyValue::String(s)
         }
         9 => PropertyValue::Vector(Vec::new()),
-        10 => PropertyValue::Vector(vec![kani::any()]),
-        11 => PropertyValue::Vector(vec![kani::any(), kani::any()]),
+        10 => PropertyValue::Vector(vec![f32n(nan)]),
+        11 => PropertyValue::Vector(vec![f32n(nan), f32n(nan)]),
         12 => PropertyValue::Array(Vec::new()),
         13 => PropertyValue::Array(vec![PropertyValue::Integer(kani::any())]),
-        14 => PropertyValue::Array(vec![PropertyValue::Float(kani::any())]),
+        14 => PropertyValue::Array(vec![PropertyValue::Float(f64n(nan))]),
         15 => PropertyValue::Array(vec![
             PropertyValue::Integer(kani::any()),
-            PropertyValue::Float(kani::any()),
+            PropertyValue::Float(f64n(nan)),
         ]),
         16 => PropertyValue::Map(HashMap::new()),
         17 => {
@@ -89,7 +125,7 @@ pub fn mk(tag: u8) -> PropertyValue {
         }
         18 => {
             let mut m = HashMap::new();
-            m.insert("k".to_string(), PropertyValue::Float(kani::any()));
+            m.insert("k".to_string(), PropertyValue::Float(f64n(nan)));
             PropertyValue::Map(m)
         }
         19 => PropertyValue::Array(vec![PropertyValue::Null]),
@@ -107,45 +143,56 @@ fn lt(o: Ordering) -> bool {
 }
 
 /// Laws over one value: reflexivity of both orders and of `==`.
-pub fn unary_laws(ta: u8) {
-    let a = mk(ta);
-    assert!(a.cmp(&a) == Ordering::Equal, "C10 Ord reflexive");
-    assert!(a == a, "C10 Eq reflexive");
-    assert!(a.partial_cmp(&a) == Some(Ordering::Equal), "C10 PartialOrd agrees");
-    assert!(cypher_order(&a, &a) == Ordering::Equal, "C10 cypher_order reflexive");
-    vk_cover!(true, "reach");
+/// `nan_region` selects which side of the recorded-finding split the Eq clause is asserted on.
+pub fn unary_laws(ta: u8, nan_region: bool) {
+    let mut nan = false;
+    let a = mk(ta, &mut nan);
+    if !nan_region {
+        assert!(a.cmp(&a) == Ordering::Equal, "C10 Ord reflexive");
+        assert!(a.partial_cmp(&a) == Some(Ordering::Equal), "C10 PartialOrd agrees");
+        assert!(cypher_order(&a, &a) == Ordering::Equal, "C10 cypher_order reflexive");
+    }
+    if nan == nan_region {
+        assert!(a == a, "C10 Eq reflexive");
+    }
+    vk_cover!(nan == nan_region, "reach");
     std::mem::forget(a);
 }
 
 /// Laws over an ordered pair.
-pub fn pair_laws(ta: u8, tb: u8) {
-    let a = mk(ta);
-    let b = mk(tb);
+pub fn pair_laws(ta: u8, tb: u8, nan_region: bool) {
+    let mut nan = false;
+    let a = mk(ta, &mut nan);
+    let b = mk(tb, &mut nan);
     let ab = a.cmp(&b);
     let ba = b.cmp(&a);
-    assert!(ab == ba.reverse(), "C10 Ord antisymmetric");
-    assert!((ab == Ordering::Equal) == (a == b), "C10 Ord agrees with Eq");
-    assert!((a == b) == (b == a), "C10 Eq symmetric");
-    assert!(a.partial_cmp(&b) == Some(ab), "C10 PartialOrd agrees with Ord");
-    if a == b {
-        assert!(h(&a) == h(&b), "C10 equal values hash equally");
-    }
     let cab = cypher_order(&a, &b);
     let cba = cypher_order(&b, &a);
-    assert!(cab == cba.reverse(), "C10 cypher_order antisymmetric");
-    if a == b {
-        assert!(cab == Ordering::Equal, "C10 cypher_order: equal values tie");
+    if !nan_region {
+        assert!(ab == ba.reverse(), "C10 Ord antisymmetric");
+        assert!(a.partial_cmp(&b) == Some(ab), "C10 PartialOrd agrees with Ord");
+        assert!(cab == cba.reverse(), "C10 cypher_order antisymmetric");
+        assert!((a == b) == (b == a), "C10 Eq symmetric");
+        if a == b {
+            assert!(same_hash_stream(&a, &b), "C10 equal values hash equally");
+            assert!(cab == Ordering::Equal, "C10 cypher_order: equal values tie");
+            assert!(ab == Ordering::Equal, "C10 equal values compare Equal");
+        }
     }
-    vk_cover!(ab == Ordering::Less, "reach lt");
-    vk_cover!(true, "reach");
+    if nan == nan_region {
+        assert!((ab == Ordering::Equal) == (a == b), "C10 Ord agrees with Eq");
+    }
+    vk_cover!(ab == Ordering::Less && nan == nan_region, "reach lt");
+    vk_cover!(nan == nan_region, "reach");
     std::mem::forget((a, b));
 }
 
 /// Transitivity of the index order over an ordered triple.
 pub fn triple_ord(ta: u8, tb: u8, tc: u8) {
-    let a = mk(ta);
-    let b = mk(tb);
-    let c = mk(tc);
+    let mut nan = false;
+    let a = mk(ta, &mut nan);
+    let b = mk(tb, &mut nan);
+    let c = mk(tc, &mut nan);
     let ab = a.cmp(&b);
     let bc = b.cmp(&c);
     let ac = a.cmp(&c);
@@ -161,9 +208,10 @@ pub fn triple_ord(ta: u8, tb: u8, tc: u8) {
 
 /// Transitivity of the ORDER BY preorder over an ordered triple.
 pub fn triple_cypher(ta: u8, tb: u8, tc: u8) {
-    let a = mk(ta);
-    let b = mk(tb);
-    let c = mk(tc);
+    let mut nan = false;
+    let a = mk(ta, &mut nan);
+    let b = mk(tb, &mut nan);
+    let c = mk(tc, &mut nan);
     let ab = cypher_order(&a, &b);
     let bc = cypher_order(&b, &c);
     let ac = cypher_order(&a, &c);
